@@ -421,6 +421,37 @@ def sink_selected_receivers(tree: ast.AST):
                     i += 1
 
 
+def _free_loads(stmts, names):
+    """Loads of `names` in stmts that are not re-bound by an enclosing comprehension / for loop of those statements."""
+    out = []
+
+    def rec(n, bound):
+        if isinstance(n, (ast.ListComp, ast.SetComp, ast.DictComp, ast.GeneratorExp)):
+            b = set(bound)
+            for g in n.generators:
+                rec(g.iter, b)
+                b |= {x.id for x in ast.walk(g.target) if isinstance(x, ast.Name)}
+                for c in g.ifs:
+                    rec(c, b)
+            for f in ("elt", "key", "value"):
+                if hasattr(n, f):
+                    rec(getattr(n, f), b)
+            return
+        if isinstance(n, ast.For):
+            rec(n.iter, bound)
+            b = bound | {x.id for x in ast.walk(n.target) if isinstance(x, ast.Name)}
+            for st in n.body + n.orelse:
+                rec(st, b)
+            return
+        if isinstance(n, ast.Name) and isinstance(n.ctx, ast.Load) and n.id in names and n.id not in bound:
+            out.append(n)
+        for c in ast.iter_child_nodes(n):
+            rec(c, bound)
+    for st in stmts:
+        rec(st, set())
+    return out
+
+
 def loops_to_comprehensions(tree: ast.AST):
     """`d = {}` directly followed by `for T in IT:` whose body is only filters (guard clauses `if c: continue`, nested `if c:`
     without else) around ONE `d[K] = V` - or `l = []` ... `l.append(V)` - is the comprehension `{K: V for T in IT if ...}`
@@ -494,7 +525,7 @@ def loops_to_comprehensions(tree: ast.AST):
                     if exts and not any(isinstance(x, ast.Name) and x.id == d for x in ast.walk(loop.iter)):
                         # l = []; for T in IT: l.extend(E1); l.extend(E2)   ==   [e for T in IT for e in E1 + E2]
                         bound = {x.id for x in ast.walk(loop.target) if isinstance(x, ast.Name)}
-                        later = [x for st in blk[i + 1:] for x in ast.walk(st) if isinstance(x, ast.Name) and x.id in bound and isinstance(x.ctx, ast.Load)]
+                        later = _free_loads(blk[i + 1:], bound)
                         if not later:
                             src = exts[0].value.args[0]
                             for b in exts[1:]:
@@ -526,7 +557,7 @@ def loops_to_comprehensions(tree: ast.AST):
                         continue
                     # the loop's variables must not be used after the loop (a comprehension does not leak them)
                     bound = {x.id for x in ast.walk(loop.target) if isinstance(x, ast.Name)}
-                    later = [x for st in blk[i + 1:] for x in ast.walk(st) if isinstance(x, ast.Name) and x.id in bound and isinstance(x.ctx, ast.Load)]
+                    later = _free_loads(blk[i + 1:], bound)
                     if later:
                         continue
                     for x in ast.walk(comp.generators[0].target):
